@@ -175,6 +175,10 @@ func c15Alphabet() []string {
 	for _, c := range []string{"A", "B"} {
 		a = append(a, c+":drop:", c+":reconnect:", c+":expire:")
 	}
+	// locks are ephemeral keys too: taken and released through the lock operations on a key of their own
+	for _, c := range []string{"A", "B"} {
+		a = append(a, c+":acq:L", c+":rel:L")
+	}
 	return a
 }
 
@@ -188,6 +192,13 @@ func c15Run(r *vt.Run, c c15Case) (canon string) {
 		cl := map[string]*vClient{"A": vNewClient(r.T, w, "A", "hostA", 0), "B": vNewClient(r.T, w, "B", "hostB", 0)}
 		ref := &refTree{nodes: map[string]*refNode{"": {val: ""}}, gen: map[string]int{"A": 1, "B": 1}, conn: map[string]bool{"A": true, "B": true}}
 		expired := map[string]bool{}
+		// (also after a reported violation: clients left open would end the bubble with a fatal error)
+		defer func() {
+			for _, c0 := range cl {
+				c0.d.Close()
+				c0.cancel()
+			}
+		}()
 		for si, st := range c.Steps {
 			f := strings.SplitN(st, ":", 3)
 			who, op, key := f[0], f[1], f[2]
@@ -229,8 +240,13 @@ func c15Run(r *vt.Run, c c15Case) (canon string) {
 			var gotTree any
 			var gotInt int
 			var gotObj map[string]any
+			var gotLock bool
 			w.Step(who, func() {
 				switch op {
+				case "acq":
+					gotLock = c0.d.AcquireLock(key)
+				case "rel":
+					c0.d.ReleaseLock(key)
 				case "create":
 					err = c0.d.Create(key, 1)
 				case "createEph":
@@ -253,7 +269,29 @@ func c15Run(r *vt.Run, c c15Case) (canon string) {
 			})
 			got := classify(err)
 			where := fmt.Sprintf("step %d %s", si, st)
-			if !ref.conn[who] {
+			if op == "acq" || op == "rel" {
+				n := ref.nodes[p]
+				switch {
+				case !ref.conn[who]:
+					if gotLock {
+						bad("10-lock-operations", fmt.Sprintf("%s reported the lock as held although the client has no connection", where))
+					}
+				case op == "acq":
+					par, _ := refParent(p)
+					// a lock is an ephemeral key created in place: it needs an existing plain parent
+					want := n == nil && ref.nodes[par] != nil && ref.nodes[par].owner == "" || n != nil && n.owner == me
+					if gotLock != want {
+						bad("10-lock-operations", fmt.Sprintf("%s returned %v, want %v", where, gotLock, want))
+					}
+					if gotLock && n == nil {
+						ref.nodes[p] = &refNode{"lock", me}
+					}
+				case op == "rel":
+					if n != nil && n.owner == me {
+						delete(ref.nodes, p) // released by its owner: the key is gone
+					}
+				}
+			} else if !ref.conn[who] {
 				// disconnected: no semantic answer may be given and nothing may change
 				if got == oOK && op != "delete" || got == oExists {
 					bad("9-disconnected-client-gets-errors", fmt.Sprintf("%s answered %s although the client has no connection", where, got))
@@ -366,6 +404,9 @@ func c15Run(r *vt.Run, c c15Case) (canon string) {
 				if path == "/" || path == "/test" && false {
 					return "", false
 				}
+				if path == "/test/L" {
+					return "lock", true
+				}
 				return string(data), true
 			})
 			want := ref.dump()
@@ -379,10 +420,6 @@ func c15Run(r *vt.Run, c c15Case) (canon string) {
 			}
 		}
 		canon = ref.dump() + fmt.Sprintf("conn=%v gen=%v exp=%v|%s|%s", ref.conn, ref.gen, expired, VerifState(cl["A"].d), VerifState(cl["B"].d))
-		for _, c0 := range cl {
-			c0.d.Close()
-			c0.cancel()
-		}
 	})
 	return canon
 }
